@@ -669,7 +669,14 @@ func (ex *Exec) doSlice(fr *Frame, in *ssa.Slice, pc Term, st State) State {
 		inb := and(app(SBool, "<=", intLit(0), lo), app(SBool, "<=", lo, hi), app(SBool, "<=", hi, mx), app(SBool, "<=", mx, sCap(s)))
 		ex.safetyObl(fr, "slice", in.Pos(), pc, inb, "slice bounds")
 		ex.vc.assume(pc, inb, "slice bounds")
-		fr.vals[in] = ex.vc.def(in.Name(), mkSlice(sBase(s), app(SInt, "+", sOff(s), lo), app(SInt, "-", hi, lo), app(SInt, "-", mx, lo)))
+		sub := ex.vc.def(in.Name(), mkSlice(sBase(s), app(SInt, "+", sOff(s), lo), app(SInt, "-", hi, lo), app(SInt, "-", mx, lo)))
+		fr.vals[in] = sub
+		// element addresses of the sub-slice and of its parent name the same cells; stated over the
+		// arithmetic-free `at` terms so that facts written with either addressing reach the other
+		if s.S != sub.S {
+			ex.vc.assume(tTrue, T(fmt.Sprintf("(forall ((j Int)) (! (= (at %s j) (at %s (- j %s))) :pattern ((at %s j))))", s.S, sub.S, lo.S, s.S), SBool), "sub-slice addressing (parent to sub)")
+			ex.vc.assume(tTrue, T(fmt.Sprintf("(forall ((k Int)) (! (= (at %s k) (at %s (+ k %s))) :pattern ((at %s k))))", sub.S, s.S, lo.S, sub.S), SBool), "sub-slice addressing (sub to parent)")
+		}
 	case *types.Pointer:
 		arr := xt.Elem().Underlying().(*types.Array)
 		xa := ex.addrOf(fr, in.X)
